@@ -455,6 +455,53 @@ func genChaos(g *vkit.Rand, c *caseSpec) {
 	}
 }
 
+// genResetReading: streams reset while their handlers are in the middle of
+// reading the body. One stream after the other: the body is uploaded and
+// acknowledged (gate = PING round trip, then the handler starts to read it in
+// small pieces), and right behind the gate - no round trip in between - comes
+// what ends the stream: the client's RST_STREAM, or one byte more than the
+// declared Content-Length (the server resets the stream). The handler is
+// somewhere in the body when the server tears the stream down; everything it
+// had not read is discarded. Accounts checked: the usual ones (WINDOW_UPDATE
+// sums against bytes sent/consumed, the server's final session windows).
+func genResetReading(g *vkit.Rand, c *caseSpec) {
+	c.Kind = "reset-reading"
+	nS := 6 + g.Intn(15)
+	for i := 0; i < nS; i++ {
+		tok, id := i+1, uint32(2*i+1)
+		chunk := []int{1, 2, 3, 5, 8, 13, 25, 50, 100}[g.Intn(9)]
+		size := int64(chunk * (40 + g.Intn(200)))
+		if size > 2600 {
+			size = 2600 // 20 streams stay within the initial session window even if nothing were given back
+		}
+		c.Scripts[tok] = &hScript{Steps: []hStep{{Op: "gate", N: 0}, {Op: "readall", Chunk: chunk}}}
+		srvReset := g.Chance(1, 4)
+		syn := op{K: "syn", ID: id, Tok: tok, N: int64(g.Intn(8))}
+		if srvReset {
+			syn.CL = size + 1
+		}
+		c.Ops = append(c.Ops, syn, op{K: "data", ID: id, N: size, Mode: "abs"}, op{K: "gate", Tok: tok, Gate: 0})
+		if srvReset {
+			c.Ops = append(c.Ops, op{K: "data", ID: id, N: 1, Mode: "abs"})
+		} else {
+			c.Ops = append(c.Ops, op{K: "rst", ID: id, N: 5})
+		}
+		c.Ops = append(c.Ops, op{K: "sync"})
+	}
+}
+
+// genStaged: the staged cases that follow the seeded mix (indices >= the tier's
+// case count); idx counts from 0.
+func genStaged(r *vkit.Run, idx, caseIdx int) *caseSpec {
+	g := r.Rng("case-reset-reading", idx)
+	c := &caseSpec{Idx: caseIdx, MaxStreams: 200, Scripts: map[int]*hScript{}, Transport: "pipe"}
+	if g.Chance(1, 5) {
+		c.Transport = "tcp"
+	}
+	genResetReading(g, c)
+	return c
+}
+
 func genCase(r *vkit.Run, idx int) *caseSpec {
 	g := r.Rng("case", idx)
 	c := &caseSpec{Idx: idx, MaxStreams: 200, Scripts: map[int]*hScript{}, Transport: "pipe"}
